@@ -48,6 +48,7 @@ type World struct {
 	inlined        map[string]bool
 	usedContracts  map[string]*Contract
 	topContract    *Contract
+	topFrame       *Frame
 	splits         []Term
 	quantFacts     []quantFact
 	loopFreshOnly  map[string]bool
@@ -537,6 +538,41 @@ func (w *World) implicitHeap(st *State, key string) Term {
 
 func (w *World) hset(st *State, key string, v Term) {
 	st.heap[key] = w.sc.define(key, v)
+}
+
+// capturedSnapshot / keepCaptured: under `opt captured private` the variables a closure captures keep
+// their value across calls whose frame is unknown (the callee cannot reach the enclosing function's locals:
+// an assumption, recorded in the evidence).
+func (w *World) capturedSnapshot(st *State) map[string][2]Term {
+	fr := w.topFrame
+	if fr == nil || w.topContract == nil || w.topContract.Opts["captured"] != "private" {
+		return nil
+	}
+	out := map[string][2]Term{}
+	for _, fv := range fr.fn.FreeVars {
+		v, ok := fr.vals[fv]
+		if !ok || v.T.S == "" {
+			continue
+		}
+		key := w.cellKey(w.sortOf(deref(fv.Type())))
+		out[fv.Name()] = [2]Term{Term{key, ""}, v.T}
+		cur := sel(w.hget(st, key), v.T)
+		// ... and so is the backing array of a captured slice
+		if sl, ok := deref(fv.Type()).Underlying().(*types.Slice); ok {
+			ek := w.elemsKeyT(sl.Elem())
+			_ = w.hget(st, ek)
+			out[fv.Name()+"[]"] = [2]Term{Term{ek, ""}, w.sc.define("cap.arr", sarr(cur))}
+		}
+	}
+	w.assumption("in " + w.topContract.Name + ", the captured variables are private to the closures of the enclosing function: calls with an unknown frame leave them unchanged")
+	return out
+}
+
+func (w *World) keepCaptured(st, pre *State, snap map[string][2]Term) {
+	for _, kr := range snap {
+		key, ref := kr[0].S, kr[1]
+		w.hset(st, key, store(w.hget(st, key), ref, sel(w.hget(pre, key), ref)))
+	}
 }
 
 // havocAll forgets everything about the heap and ghost state (allocation
